@@ -287,7 +287,7 @@ Section KS.
     run_takes (tree_gglwe_external_product fam n res a g) (0, gglwe_external_product_tmp_bytes fam n res a g) <> None.
   Proof using Hf Hn0 Hn8.
     intros. destruct (external_product_spec res a g) as (A & D); auto.
-    destruct (loop_scoped_spec (glwe_external_product_tmp_bytes fam n res a g) (nat_of (i_dnum res * i_rank_in res)) _ A D) as [A' D'].
+    destruct (loop_scoped_spec (glwe_external_product_tmp_bytes fam n res a g) (nat_of (Z.min (i_dnum res) (i_dnum a) * i_rank_in res)) _ A D) as [A' D'].
     apply aligned_suffices; auto.
   Qed.
   Lemma suffices_ggsw_external_product (res a g : infos) :
